@@ -33,6 +33,8 @@ const (
 	tyBytes
 	tyPtr
 	tyF64 // a float64, carried as its bit pattern (a uint64 value on the Lean side)
+	tyKeys // map[string]struct{} used as a set of keys
+	tyFunc // a function-valued parameter (callback)
 )
 
 // functions translated, in dependency order (callees first is not required)
@@ -42,6 +44,7 @@ var goSrcFuncs = []string{
 	"Iter.SetFloat", "Iter.SetInt", "Iter.SetUInt", "Iter.SetBool", "Iter.SetNull", "Iter.SetStringBytes",
 	"ParsedJson.stringByteAt", "Iter.StringBytes", "Iter.Bool", "Object.NextElementBytes",
 	"Iter.Float", "Iter.FloatFlags", "Iter.Int", "Iter.Uint",
+	"Array.ForEach", "Array.DeleteElems", "Array.FirstType", "Object.ForEach", "Object.DeleteElems",
 }
 
 type goBlock struct {
@@ -126,6 +129,8 @@ func tyOfTypeExpr(e ast.Expr) gty {
 			return tyBool
 		case "error":
 			return tyErr
+		case "string":
+			return tyBytes // a string is its bytes
 		case "float64":
 			return tyF64
 		case "FloatFlags":
@@ -137,6 +142,12 @@ func tyOfTypeExpr(e ast.Expr) gty {
 				return tyBytes
 			}
 		}
+	case *ast.MapType:
+		if k, ok := t.Key.(*ast.Ident); ok && k.Name == "string" && nows(src(t.Value)) == "struct{}" {
+			return tyKeys
+		}
+	case *ast.FuncType:
+		return tyFunc
 	}
 	return tyUnk
 }
@@ -400,10 +411,20 @@ func (t *gsTr) expr(e ast.Expr, want gty) (string, gty) {
 				if base, ok := t.isTape(x.Args[0]); ok {
 					return fmt.Sprintf("(.lenTape %s)", strconv.Quote(base)), tyInt
 				}
+				if id2, ok := x.Args[0].(*ast.Ident); ok && t.locals[id2.Name] == tyKeys {
+					return fmt.Sprintf("(.lenK (.v %s))", strconv.Quote(id2.Name)), tyInt
+				}
 				if a, aty := t.expr(x.Args[0], tyUnk); aty == tyBytes {
 					return fmt.Sprintf("(.lenB %s)", a), tyInt
 				}
 				gsDie(e, "len of")
+			}
+			if id.Name == "string" {
+				a, aty := t.expr(x.Args[0], tyBytes)
+				if aty != tyBytes {
+					gsDie(e, "string conversion operand")
+				}
+				return a, tyBytes
 			}
 			if ty := tyOfTypeExpr(id); ty == tyInt || ty == tyU64 || ty == tyU8 || ty == tyF64 {
 				wantA := ty
@@ -483,6 +504,16 @@ func (t *gsTr) expr(e ast.Expr, want gty) (string, gty) {
 	}
 	gsDie(e, "expression")
 	return "", tyUnk
+}
+
+// exprBytes translates e when it is a byte-string valued variable or `string(<such a variable>)`
+func (t *gsTr) exprBytes(e ast.Expr) (string, gty) {
+	if c, ok := e.(*ast.CallExpr); ok && len(c.Args) == 1 {
+		if id, ok := c.Fun.(*ast.Ident); ok && id.Name == "string" {
+			return t.exprBytes(c.Args[0])
+		}
+	}
+	return t.exprMaybe(e)
 }
 
 // exprTry translates a plain variable and reports its type; anything else reports tyUnk without aborting
@@ -640,6 +671,28 @@ func (t *gsTr) binary(x *ast.BinaryExpr, want gty) (string, gty) {
 			}
 		}
 	}
+	if isCmp {
+		if id, ok := x.X.(*ast.Ident); ok && t.locals[id.Name] == tyFunc {
+			if n, ok := x.Y.(*ast.Ident); ok && n.Name == "nil" && (x.Op == token.EQL || x.Op == token.NEQ) {
+				v := fmt.Sprintf("(.v %s)", strconv.Quote(id.Name+"==nil"))
+				if x.Op == token.NEQ {
+					v = "(.not " + v + ")"
+				}
+				return v, tyBool
+			}
+		}
+		if x.Op == token.EQL || x.Op == token.NEQ {
+			if a, at := t.exprBytes(x.X); at == tyBytes {
+				if b, bt := t.exprBytes(x.Y); bt == tyBytes {
+					r := fmt.Sprintf("(.eqB %s %s)", a, b)
+					if x.Op == token.NEQ {
+						r = "(.not " + r + ")"
+					}
+					return r, tyBool
+				}
+			}
+		}
+	}
 	if isCmp && isUntypedConst(t, x.Y) && !isUntypedConst(t, x.X) {
 		if a, at := t.exprTry(x.X); at == tyF64 {
 			k := t.constInt(x.Y)
@@ -757,6 +810,76 @@ func (t *gsTr) methodCall(call *ast.CallExpr) (recv, callee string, ptrs, args [
 	return recv, callee, ptrs, args, funcResultTypes(cfd), true
 }
 
+// callback recognises a call of a function-valued parameter; the values it is handed are logged field by field.
+func (t *gsTr) callback(call *ast.CallExpr, target string) (string, bool) {
+	id, ok := call.Fun.(*ast.Ident)
+	if !ok || t.locals[id.Name] != tyFunc {
+		return "", false
+	}
+	var logs []string
+	for _, a := range call.Args {
+		if aid, ok := a.(*ast.Ident); ok && t.kinds[aid.Name] != "" {
+			for _, f := range append(append([]string{}, structKinds[t.kinds[aid.Name]].fields...), "lim") {
+				logs = append(logs, fmt.Sprintf("(.v %s)", strconv.Quote(aid.Name+"."+f)))
+			}
+			continue
+		}
+		e, ty := t.expr(a, tyUnk)
+		if ty != tyInt && ty != tyU64 && ty != tyU8 && ty != tyBool && ty != tyBytes {
+			gsDie(a, "callback argument type")
+		}
+		logs = append(logs, e)
+	}
+	return fmt.Sprintf(".cb %s %s [%s]", strconv.Quote(target), strconv.Quote(id.Name), strings.Join(logs, ", ")), true
+}
+
+// newIter recognises `x := a.Iter()` (Array/Object receiver: the view and the offset) and `x := o.tape.Iter()`
+// (ParsedJson.Iter: the view, offset 0); the other fields are zero.
+func (t *gsTr) newIter(lhs *ast.Ident, rhs ast.Expr, ind string) (string, bool) {
+	call, ok := rhs.(*ast.CallExpr)
+	if !ok || len(call.Args) != 0 {
+		return "", false
+	}
+	sel, ok := call.Fun.(*ast.SelectorExpr)
+	if !ok || sel.Sel.Name != "Iter" {
+		return "", false
+	}
+	src0, off := "", ""
+	switch x := sel.X.(type) {
+	case *ast.Ident:
+		if k := t.kinds[x.Name]; k == "Array" {
+			// func (a *Array) Iter() Iter { return Iter{tape: a.tape, off: a.off} }: pinned by the shape check below
+			fd := t.p.funcs["Array.Iter"]
+			if fd == nil || nows(src(fd.Body)) != "{i:=Iter{tape:a.tape,off:a.off,}returni}" {
+				gsDie(rhs, "Array.Iter has an unexpected body")
+			}
+			src0, off = x.Name, fmt.Sprintf("(.v %s)", strconv.Quote(x.Name+".off"))
+		}
+	case *ast.SelectorExpr:
+		if id, ok := x.X.(*ast.Ident); ok && x.Sel.Name == "tape" && t.kinds[id.Name] != "" {
+			fd := t.p.funcs["ParsedJson.Iter"]
+			if fd == nil || nows(src(fd.Body)) != "{returnIter{tape:*pj}}" {
+				gsDie(rhs, "ParsedJson.Iter has an unexpected body")
+			}
+			src0, off = id.Name, "(.int 0)"
+		}
+	}
+	if src0 == "" {
+		return "", false
+	}
+	n := lhs.Name
+	t.kinds[n] = "Iter"
+	t.iters[n] = true
+	parts := []string{
+		fmt.Sprintf(".assign %s %s", strconv.Quote(n+".off"), off),
+		fmt.Sprintf(".assign %s (.int 0)", strconv.Quote(n+".addNext")),
+		fmt.Sprintf(".assign %s (.u64 0)", strconv.Quote(n+".cur")),
+		fmt.Sprintf(".assign %s (.u8 0)", strconv.Quote(n+".t")),
+		fmt.Sprintf(".assign %s (.lenTape %s)", strconv.Quote(n+".lim"), strconv.Quote(src0)),
+	}
+	return strings.Join(parts, ",\n"+ind), true
+}
+
 // lvalue name of an assignable expression (local or iterator field)
 func (t *gsTr) lvalue(e ast.Expr) (string, gty) {
 	switch x := e.(type) {
@@ -815,6 +938,34 @@ func (t *gsTr) block(list []ast.Stmt, ind string) string {
 func (t *gsTr) stmt(s ast.Stmt, ind string) string {
 	switch x := s.(type) {
 	case *ast.AssignStmt:
+		if x.Tok == token.DEFINE && len(x.Lhs) == 1 && len(x.Rhs) == 1 {
+			if id, ok := x.Lhs[0].(*ast.Ident); ok {
+				if out, ok := t.newIter(id, x.Rhs[0], ind); ok {
+					return out
+				}
+			}
+		}
+		// _, ok := m[string(k)]
+		if x.Tok == token.DEFINE && len(x.Lhs) == 2 && len(x.Rhs) == 1 {
+			if ix, ok := x.Rhs[0].(*ast.IndexExpr); ok {
+				if m, ok := ix.X.(*ast.Ident); ok && t.locals[m.Name] == tyKeys {
+					blank, ok1 := x.Lhs[0].(*ast.Ident)
+					okv, ok2 := x.Lhs[1].(*ast.Ident)
+					if !ok1 || !ok2 || blank.Name != "_" {
+						gsDie(s, "map lookup shape")
+					}
+					k, kty := t.exprBytes(ix.Index)
+					if kty != tyBytes {
+						gsDie(s, "map key")
+					}
+					if _, shadow := t.outer[okv.Name]; shadow {
+						gsDie(s, "definition shadows a variable of an enclosing scope")
+					}
+					t.locals[okv.Name] = tyBool
+					return fmt.Sprintf(".assign %s (.inK (.v %s) %s)", strconv.Quote(okv.Name), strconv.Quote(m.Name), k)
+				}
+			}
+		}
 		if len(x.Rhs) == 1 {
 			if call, isCall := x.Rhs[0].(*ast.CallExpr); isCall && (x.Tok == token.ASSIGN || x.Tok == token.DEFINE) {
 				if recv, callee, ptrs, args, rtys, ok := t.methodCall(call); ok {
@@ -952,8 +1103,29 @@ func (t *gsTr) stmt(s ast.Stmt, ind string) string {
 		}
 		return fmt.Sprintf(".assign %s (.bin %s (.v %s) %s)", strconv.Quote(name), op, strconv.Quote(name), one)
 	case *ast.IfStmt:
+		pre := ""
 		if x.Init != nil {
-			gsDie(s, "if with init statement")
+			// the init statement runs first; what it defines is scoped to the `if` (the enclosing block's scope ends it)
+			pre = t.stmt(x.Init, ind) + ",\n" + ind
+		}
+		// callbacks in the condition: `if fn(args) {B}` and `if fn == nil || fn(args) {B}`
+		if call, ok := x.Cond.(*ast.CallExpr); ok && x.Else == nil {
+			if cbs, ok := t.callback(call, "#"+src(call.Fun)); ok {
+				return pre + cbs + ",\n" + ind + fmt.Sprintf(".ite (.v %s) %s []", strconv.Quote("#"+src(call.Fun)), t.block(x.Body.List, ind))
+			}
+		}
+		if be, ok := x.Cond.(*ast.BinaryExpr); ok && be.Op == token.LOR && x.Else == nil {
+			if call, ok := be.Y.(*ast.CallExpr); ok {
+				if cbs, ok := t.callback(call, "#"+src(call.Fun)); ok {
+					a, aty := t.expr(be.X, tyBool)
+					if aty != tyBool {
+						gsDie(s, "condition type")
+					}
+					body := t.block(x.Body.List, ind+"  ")
+					// `if a || fn(..) {B}` is `if a {B} else { r := fn(..); if r {B} }` (the call happens only when `a` is false)
+					return pre + fmt.Sprintf(".ite %s %s [\n%s  %s,\n%s  .ite (.v %s) %s []]", a, body, ind, cbs, ind, strconv.Quote("#"+src(call.Fun)), body)
+				}
+			}
 		}
 		c, ty := t.expr(x.Cond, tyBool)
 		if ty != tyBool {
@@ -970,7 +1142,7 @@ func (t *gsTr) stmt(s ast.Stmt, ind string) string {
 		default:
 			gsDie(s, "else shape")
 		}
-		return fmt.Sprintf(".ite %s %s %s", c, th, el)
+		return pre + fmt.Sprintf(".ite %s %s %s", c, th, el)
 	case *ast.SwitchStmt:
 		if x.Init != nil || x.Tag == nil {
 			gsDie(s, "switch shape")
@@ -1134,6 +1306,9 @@ func (t *gsTr) stmt(s ast.Stmt, ind string) string {
 		if !ok {
 			gsDie(s, "expression statement")
 		}
+		if cbs, ok := t.callback(call, "_"); ok {
+			return cbs
+		}
 		sel, ok := call.Fun.(*ast.SelectorExpr)
 		if !ok {
 			gsDie(s, "call shape")
@@ -1236,7 +1411,12 @@ func genGoSrc(p *pkgInfo, out string) {
 					continue
 				}
 				ty := tyOfTypeExpr(f.Type)
-				if ty != tyInt && ty != tyU64 && ty != tyU8 && ty != tyBool && ty != tyBytes && ty != tyF64 {
+				if ty == tyFunc {
+					// a callback: no value; its answers and its log are the variables `<name>.results`, `<name>.log`
+					t.locals[nm.Name] = tyFunc
+					continue
+				}
+				if ty != tyInt && ty != tyU64 && ty != tyU8 && ty != tyBool && ty != tyBytes && ty != tyF64 && ty != tyKeys {
 					die("gosrc: %s: parameter %s has an unsupported type", fn, nm.Name)
 				}
 				t.locals[nm.Name] = ty
